@@ -186,6 +186,8 @@ fn main() {
         totals.frame_checks += c.frame_checks;
         totals.copy_checks += c.copy_checks;
         totals.timing_checks += c.timing_checks;
+        totals.timing_long += c.timing_long;
+        totals.timing_long_local += c.timing_long_local;
         totals.call_checks += c.call_checks;
         totals.batch_checks += c.batch_checks;
         totals.lazy_checks += c.lazy_checks;
@@ -348,7 +350,9 @@ fn main() {
             eprintln!("P {}", k);
             let mut prng = Rng::new(args.seed.wrapping_mul(0x9E37_79B9_7F4A_7C15) ^ (k as u64).wrapping_mul(0xD1B5_4A32_D192_ED03));
             let pf = props::profile_for(&args.prop, args.cancelable, &mut prng);
-            let prog = if args.prop == "C09" {
+            let prog = if (args.prop == "C18" && k % 100 == 50) || (args.prop == "C17" && k % 500 == 250) {
+                templates::long_local_program(args.cancelable, &mut prng)
+            } else if args.prop == "C09" {
                 Gen::new(&mut prng, &pf, k as u64).generate_overload()
             } else {
                 Gen::new(&mut prng, &pf, k as u64).generate()
@@ -389,6 +393,8 @@ fn main() {
             "frame_checks": totals.frame_checks,
             "copy_checks": totals.copy_checks,
             "timing_checks": totals.timing_checks,
+            "timing_long": totals.timing_long,
+            "timing_long_local": totals.timing_long_local,
             "delivery_call_checks": totals.call_checks,
             "batch_checks": totals.batch_checks,
             "closure_checks": totals.lazy_checks,
